@@ -21,7 +21,7 @@ def plan(tier, seed):
 def floors(tier):
     f = {"checked/%s" % g: 100 for g in GENS}
     f.update({"clause/predict-equals-contraction": 200, "clause/weight-tensor-equals-factors": 200, "clause/vec": 200,
-              "clause/plsr-transform": 100, "clause/plsr-unit-loadings": 100, "clause/plsr-shift-invariance": 100, "clause/plsr-permutation": 100})
+              "clause/plsr-transform": 100, "clause/plsr-transform-with-Y": 100, "refit/aborted": 50, "clause/predict-equals-contraction-after-aborted-refit": 50, "clause/plsr-unit-loadings": 100, "clause/plsr-shift-invariance": 100, "clause/plsr-permutation": 100})
     return f
 
 
@@ -76,36 +76,84 @@ def run_case(case, ctx):
         except Exception as e:  # noqa
             viol("fit-raises-%s" % type(e).__name__, scls, "fit raised %s: %s" % (type(e).__name__, str(e)[:200]), desc)
             return
-        Wt = np.asarray(est.weight_tensor_)
         os_ = L[10:10 + len(oshape)]
-        if Wt.shape != tuple(fshape + oshape):
-            viol("weight-shape", cls, "weight_tensor_ has shape %s, expected %s" % (Wt.shape, fshape + oshape), desc)
-            return
-        # weight tensor equals the reconstruction of the exposed factors
-        ctx.count("clause/weight-tensor-equals-factors")
-        if g == "cp_regressor":
-            w_, Fs = est.cp_weight_
-            dense, absb, nt = ref.cp_dense(w_, [np.asarray(f) for f in Fs])
-        else:
-            G_, Fs = est.tucker_weight_
-            dense, absb, nt = ref.tucker_dense(np.asarray(G_), [np.asarray(f) for f in Fs])
-        ok, worst = tol.formula_close(Wt, dense, absb, eps, nt)
-        if not ok:
-            viol("weight-tensor-equals-factors", cls, "weight_tensor_ differs from the reconstruction of the exposed factors (err/bound %.3g)" % worst, desc)
-        ctx.count("clause/vec")
-        ok, worst = tol.formula_close(np.asarray(est.vec_W_), dense.ravel(), absb.ravel(), eps, nt)
-        if not ok:
-            viol("vec", cls, "vec_W_ differs from the vectorised weight tensor (err/bound %.3g)" % worst, desc)
-        # predictions equal the contraction of each sample with the exposed weight tensor
-        for nm, Xq in (("train", X), ("unseen", Xnew)):
-            ctx.count("clause/predict-equals-contraction")
-            pred = np.asarray(est.predict(Xq))
-            want, wabs = ref.es("a%s,%s%s->a%s" % (fs, fs, os_, os_), Xq, Wt)
-            ok, worst = tol.formula_close(pred, want, wabs, eps, int(np.prod(fshape)))
+
+        def consistent(stage):
+            """the three equalities of the statement, on whatever the estimator exposes now; returns False after reporting"""
+            sfx = "" if stage == "fit" else "-" + stage
+            Wt = np.asarray(est.weight_tensor_)
+            if Wt.shape != tuple(fshape + oshape):
+                viol("weight-shape" + sfx, cls, "weight_tensor_ has shape %s, expected %s" % (Wt.shape, fshape + oshape), desc)
+                return False
+            # weight tensor equals the reconstruction of the exposed factors
+            ctx.count("clause/weight-tensor-equals-factors" + sfx)
+            if g == "cp_regressor":
+                w_, Fs = est.cp_weight_
+                if [np.shape(f) for f in Fs] != [(s_, rank) for s_ in fshape + oshape]:
+                    viol("weight-tensor-equals-factors" + sfx, cls, "exposed CP factors have shapes %s for a weight tensor of shape %s" % ([np.shape(f) for f in Fs], Wt.shape), desc)
+                    return False
+                dense, absb, nt = ref.cp_dense(w_, [np.asarray(f) for f in Fs])
+            else:
+                G_, Fs = est.tucker_weight_
+                dense, absb, nt = ref.tucker_dense(np.asarray(G_), [np.asarray(f) for f in Fs])
+            ok, worst = tol.formula_close(Wt, dense, absb, eps, nt)
             if not ok:
-                viol("predict-equals-contraction", cls, "predict(%s X) differs from <X_i, weight_tensor_> (err/bound %.3g; got shape %s want %s)" % (nm, worst, pred.shape, want.shape),
-                     {"desc": desc, "got": pred, "want": want})
-                break
+                viol("weight-tensor-equals-factors" + sfx, cls, "weight_tensor_ differs from the reconstruction of the exposed factors (err/bound %.3g)" % worst, desc)
+                return False
+            ctx.count("clause/vec" + sfx)
+            ok, worst = tol.formula_close(np.asarray(est.vec_W_), dense.ravel(), absb.ravel(), eps, nt)
+            if not ok:
+                viol("vec" + sfx, cls, "vec_W_ differs from the vectorised weight tensor (err/bound %.3g)" % worst, desc)
+                return False
+            # predictions equal the contraction of each sample with the exposed weight tensor
+            for nm, Xq in (("train", X), ("unseen", Xnew)):
+                ctx.count("clause/predict-equals-contraction" + sfx)
+                pred = np.asarray(est.predict(Xq))
+                want, wabs = ref.es("a%s,%s%s->a%s" % (fs, fs, os_, os_), Xq, Wt)
+                ok, worst = tol.formula_close(pred, want, wabs, eps, int(np.prod(fshape)))
+                if not ok:
+                    viol("predict-equals-contraction" + sfx, cls, "predict(%s X) differs from <X_i, weight_tensor_> (err/bound %.3g; got shape %s want %s)" % (nm, worst, pred.shape, want.shape),
+                         {"desc": desc, "got": pred, "want": want})
+                    return False
+            return True
+
+        if not consistent("fit"):
+            return
+        if (case["idx"] // 3) % 2 == 0:
+            # an estimator that was fitted and whose re-fit is aborted part-way (a failing linear solve, an interrupt) is still "after
+            # fitting": whatever it exposes must still agree with itself
+            inst = tl.backend.BackendManager.current_backend()
+            # the failpoint sits in the linear solve / norm of the sweeps, never inside the final block that publishes the fitted
+            # attributes one after the other (no statement promises atomicity against a fault in the middle of that block)
+            name = gen.choice(rs, ["solve", "solve", "norm"])
+            orig = getattr(inst, name)
+            nth = int(rs.randint(1, 9))
+            cnt = [0]
+
+            class Injected(Exception):
+                pass
+
+            def failing(*a, **k):
+                cnt[0] += 1
+                if cnt[0] == nth:
+                    raise Injected("%s failpoint, call %d" % (name, nth))
+                return orig(*a, **k)
+            X2 = gen.arr(rs, [n] + fshape, dt, "gauss")
+            y2 = gen.arr(rs, [n] + oshape, dt, "gauss")
+            setattr(inst, name, failing)
+            fired = False
+            try:
+                est.fit(X2, y2)
+            except Injected:
+                fired = True
+            finally:
+                try:
+                    delattr(inst, name)
+                except AttributeError:
+                    setattr(inst, name, orig)
+            ctx.count("refit/aborted" if fired else "refit/completed")
+            if not consistent("after-aborted-refit" if fired else "after-refit"):
+                return
         return
 
     # ---- CP-PLSR ---------------------------------------------------------------------------------------------
@@ -139,6 +187,23 @@ def run_case(case, ctx):
     Tt = ref.hp(m.transform(X.copy()))
     if Tt.shape != T0.shape or np.max(np.abs(Tt - T0)) > 100 * rtol * scale_T:
         viol("transform-equals-scores", "any", "transform(X_train) differs from X_factors[0] by %.3g (scale %.3g)" % (np.max(np.abs(Tt - T0)), scale_T), desc)
+    # the same with the training targets, twice, from the caller's own arrays: same scores both times, inputs untouched
+    ctx.count("clause/plsr-transform-with-Y")
+    Xc, Yc = X.copy(), Y.copy()
+    outs = [m.transform(Xc, Yc) for _ in range(2)]
+    if not (np.array_equal(Xc, X) and np.array_equal(Yc, Y)):
+        viol("transform-modifies-input", "vector-Y" if vecY else "matrix-Y", "transform(X, Y) changed the caller's %s" % ("X" if not np.array_equal(Xc, X) else "Y"), desc)
+        return
+    U0 = ref.hp(m.Y_factors[0])
+    scale_U = np.max(np.abs(U0)) + 1e-300
+    for k, (tx, ty) in enumerate(outs):
+        tx, ty = ref.hp(tx), ref.hp(ty)
+        if tx.shape != T0.shape or np.max(np.abs(tx - T0)) > 100 * rtol * scale_T:
+            viol("transform-equals-scores", "with-Y-call-%d" % (k + 1), "X scores of transform(X_train, Y_train) (call %d) differ from X_factors[0] by %.3g (scale %.3g)" % (k + 1, np.max(np.abs(tx - T0)), scale_T), desc)
+            return
+        if ty.shape != U0.shape or np.max(np.abs(ty - U0)) > 100 * rtol * scale_U:
+            viol("transform-equals-scores", "Y-scores-call-%d" % (k + 1), "Y scores of transform(X_train, Y_train) (call %d) differ from Y_factors[0] by %.3g (scale %.3g)" % (k + 1, np.max(np.abs(ty - U0)), scale_U), desc)
+            return
     # unit-norm loadings
     ctx.count("clause/plsr-unit-loadings")
     for nm, f in [("X mode %d" % k, m.X_factors[k]) for k in range(1, len(m.X_factors))] + [("Y", m.Y_factors[1])]:
